@@ -99,6 +99,12 @@ def step_generator(params, nticks, max_pipelines, stats, check=True, direct=Fals
                 g.ticks_since_last_gen = since + skip
                 t += skip
                 stats["jumped_ticks"] += skip
+        elif last_emit is not None:
+            limit = max(200, 10 * int(params["waiting_seconds_mean"] * params["ticks_per_second"]) + 50)
+            if t - last_emit > limit:
+                raise Violation("C15.generator_silent", {"last_event_tick": last_emit, "ticks_without_event": t - last_emit,
+                                                         "waiting_ticks_mean": int(params["waiting_seconds_mean"] * params["ticks_per_second"]),
+                                                         "events_so_far": stats["events"]}, t)
         t += 1
     stats["ticks"] += t
     return gaps
